@@ -54,6 +54,7 @@ type brokerGen struct {
 	// known-finding classes confined to dedicated episodes
 	allowEmpty, allowDollar, allowOverlap, allowBadFilter bool
 	thorough bool
+	lastConnect map[string]string
 	out2 map[int][]int // subscriber conn -> QoS 2 ids the broker sent it (for PUBREC/PUBCOMP answers)
 }
 
@@ -152,7 +153,28 @@ func (g *brokerGen) connect() {
 		}
 		will = fmt.Sprintf("%s:%s:%d:%d", hexStr(g.name()), wp, r.Intn(3), r.Intn(2))
 	}
-	g.emit("first %d connect %s 4 0 %d %s 0 0 %s ~ ~ %d 1", id, hexStr("MQTT"), b2i(clean), will, hexStr(cid), 30)
+	rest := fmt.Sprintf("connect %s 4 0 %d %s 0 0 %s ~ ~ %d 1", hexStr("MQTT"), b2i(clean), will, hexStr(cid), 30)
+	// reconnects often repeat the previous CONNECT of that client byte for byte
+	if prev, ok := g.lastConnect[cid]; ok && cid != "" && r.Intn(5) < 2 {
+		rest = prev
+	}
+	g.lastConnect[cid] = rest
+	if r.Intn(12) == 0 {
+		// a packet pipelined behind the CONNECT, before the CONNACK has been read
+		switch r.Intn(3) {
+		case 0:
+			g.emit("firstp %d %s ; disconnect", id, rest)
+			return
+		case 1:
+			g.emit("firstp %d %s ; pingreq", id, rest)
+		default:
+			g.pid++
+			f := g.filter()
+			g.emit("firstp %d %s ; subscribe %d %s:%d", id, rest, 1+g.pid%65535, hexStr(f), r.Intn(3))
+		}
+	} else {
+		g.emit("first %d %s", id, rest)
+	}
 	g.live = append(g.live, &bConn{id: id, cid: cid})
 }
 
@@ -224,6 +246,7 @@ func genBroker(p brokerProfile, seed int64, n int, tier string, w *bufio.Writer)
 		g.emit("reset")
 		g.live, g.cbsubs, g.next, g.pid = nil, nil, 0, 0
 		g.out2 = map[int][]int{}
+		g.lastConnect = map[string]string{}
 		g.allowEmpty = r.Intn(8) == 0
 		g.allowDollar = r.Intn(10) == 0
 		g.allowOverlap = r.Intn(10) == 0
